@@ -502,6 +502,10 @@ func (w *wctx) stmt(s ast.Stmt, in sigSet) (closed, open sigSet) {
 				// validation failure: not a wire form
 				continue
 			}
+			if ss, isSw := v.(*ast.SwitchStmt); isSw && ss.Tag == nil && len(cc.List) == 1 && w.isPureErrTest(cc.List[0]) && terminates(cc.Body) {
+				// switch { case err != nil: return n, err ...}: the error exit
+				continue
+			}
 			cl = append(cl, subtract(all, op)...)
 			if len(op) > 0 {
 				anyOpen = true
@@ -892,6 +896,25 @@ func (w *wctx) rawSize(e ast.Expr) string {
 			return fmt.Sprintf("Raw(%d)", len(v.Elts))
 		}
 	case *ast.CallExpr:
+		// binary.BigEndian.AppendUint32(scratch[:0], x): exactly the appended bytes
+		if fo := calleeObj(w.info, v); fo != nil && fo.Pkg() != nil && fo.Pkg().Path() == "encoding/binary" && len(v.Args) == 2 {
+			width := map[string]int{"AppendUint16": 2, "AppendUint32": 4, "AppendUint64": 8}[fo.Name()]
+			if width > 0 {
+				base := ast.Unparen(v.Args[0])
+				empty := false
+				if id, ok := base.(*ast.Ident); ok && id.Name == "nil" {
+					empty = true
+				}
+				if sl, ok := base.(*ast.SliceExpr); ok && sl.Low == nil && sl.High != nil {
+					if tv, ok := w.info.Types[sl.High]; ok && tv.Value != nil && tv.Value.ExactString() == "0" {
+						empty = true
+					}
+				}
+				if empty {
+					return fmt.Sprintf("Raw(%d)", width)
+				}
+			}
+		}
 		// []byte("const")
 		if len(v.Args) == 1 {
 			if tv, ok := w.info.Types[v.Args[0]]; ok && tv.Value != nil {
